@@ -42,6 +42,9 @@ def flat(res):
 def do_probe_conf(world, rep, op):
     g, m = rep.g, rep.m
     tag = 'C20'
+    if world.poke:
+        from . import oracles as _o
+        _o.poke_observers(rep.g, *_o.window(rep.m))
     require_source_ok(world, rep)
     if m.directed or not m.removal or rep.shared_attrs or m.frozen or any(len(k) == 1 for k in m.pres):
         return {'out': 'skipped', 'fault': False, 'cls': 'skip', 'keys': []}
